@@ -9,13 +9,14 @@ NT, NM, NS, NN = 10, 4, 6, 6      # instants, measurements, tag-value ranks, fie
 
 
 class Gen:
-    def __init__(self, seed, ntk=NTK, nfk=NFK, focus=None, handles=0.0, regex=True, nt=NT, now=0.0):
+    def __init__(self, seed, ntk=NTK, nfk=NFK, focus=None, handles=0.0, regex=True, nt=NT, now=0.0, time_pool=None):
         self.r = random.Random(seed)
         self.ntk, self.nfk = ntk, nfk
         self.focus = focus or {}
         self.handles = handles
         self.regex = regex
         self.nt = nt
+        self.time_pool = time_pool   # ranks to draw instants from (default: 0..nt-1)
         self.now = now          # probability that an inserted point carries no time (gets the insertion time)
 
     # ---- values ---------------------------------------------------------------------
@@ -23,7 +24,10 @@ class Gen:
         r = self.r
         tg = [MISSING if r.random() < 0.4 else (NONE if r.random() < 0.2 else r.randrange(NS)) for _ in range(self.ntk)]
         fd = [MISSING if r.random() < 0.4 else (NONE if r.random() < 0.2 else r.randrange(NN)) for _ in range(self.nfk)]
-        return {"t": r.randrange(self.nt) if t is None else t, "m": r.randrange(NM - 1), "tg": tg, "fd": fd}
+        return {"t": self.rt() if t is None else t, "m": r.randrange(NM - 1), "tg": tg, "fd": fd}
+
+    def rt(self):
+        return self.r.choice(self.time_pool) if self.time_pool else self.r.randrange(self.nt)
 
     def meas(self, p_none=0.5):
         return NONE if self.r.random() < p_none else self.r.randrange(NM)
@@ -37,12 +41,12 @@ class Gen:
         if k in ("tag", "field"):
             a["key"] = r.randrange(1, (self.ntk if k == "tag" else self.nfk) + 1)
         roll = r.random()
-        if k == "time" and self.now > 0 and roll >= 0.62:
+        if k == "time" and (self.now > 0 or self.time_pool) and roll >= 0.62:
             roll = 0.0 if roll < 0.96 else 0.99       # with insertion-time stamps around: comparisons and noop only
         nvals = {"time": self.nt, "meas": NM, "tag": NS, "field": NN}[k]
         if roll < 0.62:
             a["op"] = r.choice(ops)
-            a["v"] = r.randrange(nvals)
+            a["v"] = r.randrange(nvals) if k != "time" else self.rt()
             if k in ("tag", "field") and a["op"] in ("eq", "ne") and r.random() < 0.15:
                 a["v"] = NONE
         elif roll < 0.70 and k in ("tag", "field"):
@@ -85,8 +89,8 @@ class Gen:
         parts = r.sample(["t", "m", "tg", "fd", "utg", "ufd"], r.choice([1, 1, 1, 2, 2, 3]))
         for p in parts:
             if p == "t":
-                u["tk"] = r.choice([1, 2]) if self.now == 0 else 1
-                u["tv"] = r.randrange(1, self.nt) if u["tk"] == 1 else r.choice([1, 2])
+                u["tk"] = r.choice([1, 2]) if (self.now == 0 and not self.time_pool) else 1
+                u["tv"] = self.rt() if u["tk"] == 1 else r.choice([1, 2])
             elif p == "m":
                 u["mk"] = r.choice([1, 2])
                 u["mv"] = r.randrange(NM) if u["mk"] == 1 else 1
